@@ -93,11 +93,16 @@ def make_bo(sc, m, names, client_events=None):
     return bo
 
 
+_RUNS = [0]
+
+
 def run_bo(sc, client, log_acq=None):
     import elfi.client
     old = elfi.client._client
     elfi.client.set_client(client)
     del SIMLOG[:]
+    _RUNS[0] += 1
+    np.random.seed(1000 + _RUNS[0])          # the fit must not depend on the global generator: another state before every run
     try:
         m, names = build(sc)
         bo = make_bo(sc, m, names)
@@ -205,7 +210,10 @@ def record_acq(sc):
             m = elfi.ElfiModel(name="c11a")
             for k, n in enumerate(names):
                 lo, hi = sc["prior"][k]
-                elfi.Prior("uniform", lo, hi - lo, model=m, name=n)
+                if sc.get("prior_kind") == "norm":      # a non-flat prior: its gradient enters the acquisition gradients
+                    elfi.Prior("norm", 0.5 * (lo + hi) + 0.3, 0.5 * (hi - lo), model=m, name=n)
+                else:
+                    elfi.Prior("uniform", lo, hi - lo, model=m, name=n)
             prior = ModelPrior(m)
             noise = sc["noise"]
             cls = sc["cls"]
@@ -230,9 +238,9 @@ def record_acq(sc):
                     ev["raised"] = type(ex).__name__
                     ev["exc"] = str(ex)[:80]
                 events.append(ev)
-            if cls in ("LCBSC", "MaxVar") and sc.get("grad"):
+            if cls in ("LCBSC", "MaxVar", "RandMaxVar") and sc.get("grad"):
                 rs = np.random.RandomState(sc["seed"] + 3)
-                for _ in range(4):
+                for _ in range(8):
                     x = np.array([rs.uniform(b[0] + 0.1 * (b[1] - b[0]), b[1] - 0.1 * (b[1] - b[0])) for b in sc["bounds"]])
                     t = 2
                     g = np.asarray(acq.evaluate_gradient(x, t), dtype=float).reshape(-1)
@@ -242,7 +250,11 @@ def record_acq(sc):
                         e = np.zeros(len(x))
                         e[j] = h
                         fd.append((float(np.ravel(acq.evaluate(x + e, t))[0]) - float(np.ravel(acq.evaluate(x - e, t))[0])) / (2 * h))
-                    scale = max(1.0, float(np.max(np.abs(fd))))
+                    # relative comparison: both sides in units of the largest finite-difference component (the acquisition
+                    # values of MaxVar are of order prior^2 * variance, far below 1); numerically flat points are skipped
+                    scale = float(np.max(np.abs(fd)))
+                    if not np.isfinite(scale) or scale < 1e-9:
+                        continue
                     events.append(dict(ev="grad", id=-1, g=[fx6(v / scale) for v in g], fd=[fx6(v / scale) for v in fd], tol=2000))
     except Hang:
         events.append(dict(ev="acq", id=-1, n=1, t=0, pend=0, raised="Hang", pts=[]))
@@ -276,6 +288,8 @@ def scenarios(ctx):
             prior = [[b[0] - 1.0, b[1] + 1.0] if wide else [b[0] + 0.25, b[1] - 0.25] for b in bounds]
         base = dict(kind="bo", dim=dim, bounds=bounds, prior=prior, bs=bs, bpa=rnd.choice([1, 2]), init=init, n_evidence=n_ev,
                     upd=rnd.choice([1, 2, 10]), noise=noise, seed=rnd.randint(0, 10 ** 6), acq=rnd.choice(["lcbsc", "lcbsc", "uniform"]))
+        if i % 5 == 1:
+            base["seed"] = 0                   # the valid seed 0
         for mp in ([1, 3] if ctx.quick else [1, 2, 3]):
             out.append(dict(base, maxpar=mp, sched_seed=rnd.randint(0, 10 ** 6), p_ready=rnd.choice([0.0, 0.5, 1.0]), p_run=rnd.choice([0.0, 0.5, 1.0])))
     # precomputed initial evidence + parallel, unready schedules: the acquisition gate must count only SUBMITTED initial evidence
@@ -295,6 +309,12 @@ def scenarios(ctx):
             prior = [[b[0] - 2.0, b[1] + 2.0] for b in bounds] if wide else [[b[0] + 0.25, b[1] - 0.25] for b in bounds]
             out.append(dict(kind="acq", cls=cls, dim=dim, bounds=bounds, prior=prior, noise=rnd.choice([0, 0.2]), seed=rnd.randint(0, 10 ** 6),
                             calls=[[1, 0], [3, 1]] if cls != "RandMaxVar" else [[2, 0]], grad=(k == 0)))
+    # gradients under a non-flat (normal) prior: the prior's own gradient is part of the acquisition gradient
+    for cls in ("LCBSC", "MaxVar", "RandMaxVar"):
+        for dim in ((1, 2) if ctx.quick else (1, 2, 2, 3)):
+            bounds = [[-1.0, 1.0]] * dim
+            out.append(dict(kind="acq", cls=cls, dim=dim, bounds=bounds, prior=[[-1.5, 1.5]] * dim, prior_kind="norm", noise=0, seed=rnd.randint(0, 10 ** 6),
+                            calls=[], grad=True))
     # pinned scenarios of the known findings
     out.append(dict(kind="acq", cls="RandMaxVar", dim=1, bounds=[[-1.0, 1.0]], prior=[[-3.0, 3.0]], noise=0, seed=9, calls=[[5, 0]],
                     n_samples=100, warmup=20, pinned="F11 history (fixed)"))
